@@ -82,7 +82,7 @@ def _decompile(cls, data, font, tag="GPOS"):
     return t
 
 
-SHAPES = ("anchor1", "anchor2", "caret1", "caret2", "attachpoint", "singlepos1", "pairpos1")
+SHAPES = ("anchor1", "anchor2", "caret1", "caret2", "attachpoint", "singlepos1", "pairpos1", "classdef", "device", "markarray")
 
 
 @contract
@@ -117,6 +117,23 @@ class GenericTableRoundTrip(_Patched, Contract):
         elif v == "attachpoint":
             t = ot.AttachPoint()
             t.PointIndex = [u16_("p0"), u16_("p1"), u16_("p2")]
+        elif v == "classdef":
+            t = ot.ClassDef()
+            t.classDefs = {g: S.int("class_" + g, 1, 3) for g in ("A", "B", "D")}
+        elif v == "device":
+            t = ot.Device()
+            t.StartSize, t.EndSize, t.DeltaFormat = 12, 16, 2
+            t.DeltaValue = [S.int("delta%d" % i, -8, 7) for i in range(5)]
+        elif v == "markarray":
+            t = ot.MarkArray()
+            t.MarkRecord = []
+            for i in range(2):
+                mr = ot.MarkRecord()
+                mr.Class = u16_("markclass%d" % i)
+                mr.MarkAnchor = ot.Anchor()
+                mr.MarkAnchor.Format = 1
+                mr.MarkAnchor.XCoordinate, mr.MarkAnchor.YCoordinate = i16("mx%d" % i), i16("my%d" % i)
+                t.MarkRecord.append(mr)
         elif v == "singlepos1":
             t = ot.SinglePos()
             t.Format = 1
@@ -178,6 +195,27 @@ class GenericTableRoundTrip(_Patched, Contract):
             return And(len(b) == 4, eq(u16(b, 0), 2), eq(u16(b, 2), t.CaretValuePoint))
         if v == "attachpoint":
             return And(len(b) == 8, eq(u16(b, 0), 3), *[eq(u16(b, 2 + 2 * i), p) for i, p in enumerate(t.PointIndex)])
+        if v == "classdef":
+            return GenericTableRoundTrip._classdef(a, b)
+        if v == "device":
+            # StartSize, EndSize, DeltaFormat 2 (4-bit signed fields, big-endian in 16-bit words)
+            words = [u16(b, 6), u16(b, 8)]
+            cs = [len(b) == 10, eq(u16(b, 0), 12), eq(u16(b, 2), 16), eq(u16(b, 4), 2)]
+            for i, d in enumerate(t.DeltaValue):
+                w, sh = words[i // 4], 12 - 4 * (i % 4)
+                nib = (w // (1 << sh)) % 16
+                cs.append(eq(Ite(nib >= 8, nib - 16, nib), d))
+            return And(*cs)
+        if v == "markarray":
+            cs = [eq(u16(b, 0), 2)]
+            for i, mr in enumerate(t.MarkRecord):
+                off = u16(b, 2 + 4 * i + 2)
+                offc = off if isinstance(off, int) else off.concrete()
+                if offc is None or offc + 6 > len(b):
+                    return False
+                cs += [eq(u16(b, 2 + 4 * i), mr.Class), eq(u16(b, offc), 1), eq(s16(b, offc + 2), mr.MarkAnchor.XCoordinate),
+                       eq(s16(b, offc + 4), mr.MarkAnchor.YCoordinate)]
+            return And(*cs)
         if v == "singlepos1":
             # posFormat 1, coverage offset, valueFormat, XPlacement, XAdvance; then a Coverage table listing glyphs 1 and 3
             cov = u16(b, 2)
@@ -202,8 +240,43 @@ class GenericTableRoundTrip(_Patched, Contract):
                    eq(u16(b, ps1), 1), eq(u16(b, ps1 + 2), 4), eq(s16(b, ps1 + 4), kern[("B", "D")]))
 
     @staticmethod
+    def _classdef(a, b):
+        """OpenType ClassDef lookup (format 1: class array from a start glyph; format 2: ranges) of
+        every glyph id 0..4 in the compiled bytes"""
+        order = a.font.order
+        want = {order.index(g): c for g, c in a.self.classDefs.items()}
+        fmt = u16(b, 0)
+        fmtc = fmt if isinstance(fmt, int) else fmt.concrete()
+        cs = []
+        for gid in range(len(order)):
+            if fmtc == 1:
+                start, n = u16(b, 2), (len(b) - 6) // 2
+                cls = 0
+                for i in range(n):
+                    cls = Ite(eq(start + i, gid), u16(b, 6 + 2 * i), cls)
+                cs.append(eq(u16(b, 4), n))
+            elif fmtc == 2:
+                n = (len(b) - 4) // 6
+                cls = 0
+                for i in range(n):
+                    o = 4 + 6 * i
+                    cls = Ite(And(u16(b, o) <= gid, gid <= u16(b, o + 2)), u16(b, o + 4), cls)
+                cs.append(eq(u16(b, 2), n))
+            else:
+                return False
+            cs.append(eq(cls, want.get(gid, 0)))
+        return And(*cs)
+
+    @staticmethod
     def _same(a, r):
         t, u, v = a.self, r[1], a._shape
+        if v == "classdef":
+            return And(sorted(u.classDefs) == sorted(t.classDefs), *[eq(u.classDefs[g], c) for g, c in t.classDefs.items()])
+        if v == "device":
+            return And(u.StartSize == 12, u.EndSize == 16, u.DeltaFormat == 2, len(u.DeltaValue) == 5, *[eq(x, y) for x, y in zip(u.DeltaValue, t.DeltaValue)])
+        if v == "markarray":
+            return And(len(u.MarkRecord) == 2, *[And(eq(x.Class, y.Class), eq(x.MarkAnchor.XCoordinate, y.MarkAnchor.XCoordinate),
+                                                     eq(x.MarkAnchor.YCoordinate, y.MarkAnchor.YCoordinate)) for x, y in zip(u.MarkRecord, t.MarkRecord)])
         if v.startswith("anchor"):
             cs = [eq(u.XCoordinate, t.XCoordinate), eq(u.YCoordinate, t.YCoordinate), u.Format == t.Format]
             if t.Format == 2:
